@@ -47,3 +47,8 @@ register("C05", "exploration",
          "Bounded: contracts of limit_fanin/limit_fanout (same io, bound respected, every original node keeps its function - decided relationally R1+R2 by enumeration -, result lint-clean), insert_registers (flops made transparent == original) and acyclic_unroll on acyclic circuits, on the real functions.",
          "oracle = vlib.oracle/sem; scope in evidence.bound",
          explanation="bounded stand-in of the C05 contracts")
+
+register("C04", "exploration",
+         "Bounded: miter contract (inputs = tied startpoints, output sat, both copies faithful, ties respected, sat == some compared endpoint differs under EVERY consistent valuation, every agreeing pair of valuations present, solve(m,{sat:1}) False iff no difference) on the real function.",
+         "oracle = vlib.oracle; scope in evidence.bound",
+         explanation="bounded stand-in of the miter contract")
